@@ -147,6 +147,9 @@ def run():
     # ... and Selection.tla every selection call and query
     from props import sellib
     sellib.run_into(c, thorough)
+    # ... and Paint.tla the painting helpers (half blocks, lines)
+    from props import paintlib
+    paintlib.run_into(c, thorough)
     area_reports, c.reports = c.reports[n_before:], c.reports[:n_before]
     summ = {}
     try:
